@@ -403,6 +403,46 @@ pub fn c04_concurrent(run: &Run, thorough: bool) {
   run.set("concurrent_part", json!({"harnesses": items.len(), "schedules": execs.load(Ordering::Relaxed), "preemption_bound": if thorough { 4 } else { 3 }, "menu": menu.iter().map(|p| progs_str(&[p.clone()])).collect::<Vec<_>>(), "note": "two (thorough: also three) threads race for the last 16-40 bytes of fresh space at several cursor residues; every returned handle must lie below the capacity and every zeroing write inside the arena"}));
 }
 
+fn prop_c15(class: &str) -> Option<&'static str> {
+  match class {
+    "reader-bounds" => Some("C15"),
+    _ => None,
+  }
+}
+
+/// C15 under concurrency: what an observer sees (cursor, slice lengths, reader bounds) while other threads
+/// allocate, fail to allocate (requests larger than what is left, up to u32::MAX) and release.
+pub fn c15_concurrent(run: &Run, thorough: bool) {
+  use TOp::*;
+  let actors: Vec<Vec<TOp>> = vec![vec![B(16)], vec![B(300)], vec![B(u32::MAX)], vec![B(u32::MAX - 100)], vec![U64], vec![AB(400)], vec![AB(u32::MAX - 8)], vec![B(16), DropOwn], vec![T16], vec![DropPre(1)], vec![B(24), B(300)]];
+  let mut items = vec![];
+  for fl in [Fl::Optimistic, Fl::None] {
+    for (leave, odd, shape) in [(24u32, 0u8, 0u8), (16, 3, 3), (0, 0, 3)] {
+      if fl == Fl::None && shape != 0 {
+        continue;
+      }
+      for unify in [true, false] {
+        for act in &actors {
+          items.push((Harness { fl, unify, min_seg: 8, cap: if unify { 256 } else { 225 }, shape, progs: vec![act.clone(), vec![Probe]], own_arenas: false, leave, odd }, if thorough { 4 } else { 3 }));
+          if thorough {
+            items.push((Harness { fl, unify, min_seg: 8, cap: if unify { 256 } else { 225 }, shape, progs: vec![act.clone(), vec![Probe], vec![B(300)]], own_arenas: false, leave, odd }, 2));
+          }
+        }
+      }
+    }
+  }
+  let execs = AtomicU64::new(0);
+  let events = AtomicU64::new(0);
+  par_for_each(&items, |_, (h, bound)| {
+    let xc = ExploreCfg { bound: *bound, hb: false, drain: false, prop_of: prop_c15, max_execs: 5_000_000, cache: false };
+    let st = explore(run, h, &xc, "C15");
+    execs.fetch_add(st.execs, Ordering::Relaxed);
+    events.fetch_add(st.events, Ordering::Relaxed);
+  });
+  run.eval(execs.load(Ordering::Relaxed));
+  run.set("concurrent_part", json!({"harnesses": items.len(), "schedules": execs.load(Ordering::Relaxed), "preemption_bound": if thorough { 4 } else { 3 }, "actors": actors.iter().map(|p| progs_str(&[p.clone()])).collect::<Vec<_>>(), "note": "an observer thread reads the cursor, the slices and two readers at every possible point of another thread's allocation (succeeding, failing, wrapping-size) or release"}));
+}
+
 fn prop_c08(class: &str) -> Option<&'static str> {
   match class {
     "not-zeroed" => Some("C08"),
